@@ -554,7 +554,7 @@ def i_SHAL(ins, fmap):
 def i_SHAR(ins, fmap):
     Rn = ins.operands[0]
     fmap[T] = fmap(Rn[0:1])
-    fmap[Rn] = fmap(op(OP_ASR, Rn, 1))
+    fmap[Rn] = fmap(oper(OP_ASR, Rn, cst(1, Rn.size)))
 
 
 @__pc
